@@ -208,8 +208,7 @@ fn run_q(t: &[&str]) -> String {
     if o.drop != dropped as u64 { bad.push(format!("total_dropped={} but dispatch returned Dropped {} times", o.drop, dropped)); }
     for w in 0..n {
         let d = (0..calls).filter(|&i| !o.outcomes[i] && pks[i].worker == Some(w)).count();
-        let e = if pool == "http" { (0..calls).filter(|&i| o.outcomes[i] && pks[i].worker == Some(w) && is_err(pks[i].kind)).count() } else { 0 };
-        if o.wd.get(w).copied() != Some((d + e) as u64) { bad.push(format!("worker {} dropped={:?} but the law gives {}+{}", w, o.wd.get(w), d, e)); }
+        if o.wd.get(w).copied() != Some(d as u64) { bad.push(format!("worker {} dropped={:?} but dispatch returned Dropped {} times for it", w, o.wd.get(w), d)); }
     }
     for i in 0..calls { if pks[i].worker.is_none() && o.outcomes[i] { bad.push(format!("packet {} has no worker but was reported Queued", i)); } }
     // each queued packet analysed exactly once, none dropped is
